@@ -423,6 +423,11 @@ var lexRulePool = []string{
 	"crange: /[,;]\\.\\./",
 	"dots2: /[.:]--/",
 	"colon: /:/ (space)",
+	// patterns without any instruction: must be rejected by the compiler ("accepts empty text");
+	// if such a rule is ever accepted the lexer stops making progress
+	"empt1: /()/",
+	"empt2: /x{0}/",
+	"empt3: /(y{0,0})/",
 }
 
 var lexKeywords = []string{"if", "else", "while", "for", "été", "return", "a", "abc", "x1", "_"}
@@ -448,9 +453,13 @@ func genLexerGrammar(r *rand.Rand, pkg string) (text string, opts map[string]boo
 	perm := r.Perm(len(lexRulePool))
 	n := 3 + r.Intn(12)
 	hasIdent := false
+	allowEmpty := r.Intn(8) == 0
 	for _, i := range perm[:n] {
 		rule := lexRulePool[i]
 		if opts["scanBytes"] && (strings.Contains(rule, "\\p{") || strings.Contains(rule, "а-я") || strings.Contains(rule, "\\x{1F")) {
+			continue
+		}
+		if strings.HasPrefix(rule, "empt") && !allowEmpty {
 			continue
 		}
 		if strings.HasPrefix(rule, "ident:") {
